@@ -94,6 +94,10 @@ class C19(PropertyCheck):
         "autoarray/layout/region.py:Region2D.serial_front_region_from",
         "autoarray/layout/region.py:Region2D.serial_trailing_region_from",
         "autoarray/layout/region.py:Region2D.serial_towards_roe_full_region_from",
+        "autoarray/layout/layout.py:Layout1D.__init__",
+        "autoarray/layout/layout.py:Layout1D.extract_overscan_array_1d_from",
+        "autoarray/layout/region.py:Region2D.y_slice",
+        "autoarray/layout/region.py:Region2D.x_slice",
         "autoarray/layout/layout.py:Layout2D.__init__",
         "autoarray/layout/layout.py:Layout2D.rotated_from_roe_corner",
         "autoarray/layout/layout.py:Layout2D.new_rotated_from",
@@ -107,7 +111,66 @@ class C19(PropertyCheck):
                    "array, the four corners (1,0),(0,0),(1,1),(0,1)"]
 
     # ------------------------------------------------------------------ generation
+    # -- round-3 hardening: dtype of the arrays, container type of regions / shapes / pixel ranges
+    #    (tuple, list, numpy ints, Region2D / Region1D objects), omitted-vs-explicit default arguments,
+    #    alternative constructors.  Model and oracle are unaffected.
     def generate(self, tier, rng):
+        for case in self._generate_base(tier, rng):
+            r = rng.random()
+            yield {**case, "variant": {
+                "dt": "f8" if r < 0.5 else "i8" if r < 0.75 else "f4" if r < 0.85 else "list",
+                "reg": rng.choice(("tuple", "tuple", "list", "npint", "obj")),
+                "shp": rng.choice(("tuple", "list", "npint")),
+                "omit_defaults": rng.random() < 0.5,
+                "ctor": rng.choice(("a", "b"))}}
+        # 1-D layout twin (Layout1D): prescan / overscan validation and overscan extraction
+        quick = tier == "quick"
+        for n in range(1, 6 if quick else 8):
+            for ov in itertools.product(range(-1, n + 2), repeat=2):
+                pre = rng.choice([None] + _intervals(n))
+                yield {"tag": "layout1d", "kind": "layout1d", "n": n, "values": qlist(gen.distinct_ints(rng, n)),
+                       "prescan": None if pre is None else list(pre), "overscan": list(ov),
+                       "variant": {"dt": rng.choice(("f8", "i8", "list")), "reg": "tuple", "shp": "tuple",
+                                   "omit_defaults": False, "ctor": "a"}}
+
+    @staticmethod
+    def _var(case):
+        return case.get("variant") or {}
+
+    def _arr(self, case, h, w, need_ndarray=True):
+        fr = [Fraction(v) for v in case["values"]]
+        dt = self._var(case).get("dt", "f8")
+        if dt == "i8":
+            return np.array([int(f) for f in fr], dtype=np.int64).reshape(h, w)
+        if dt == "f4":
+            return np.array([float(f) for f in fr], dtype=np.float32).reshape(h, w)
+        if dt == "list" and not need_ndarray:
+            flat = [int(f) for f in fr]
+            return [flat[y * w:(y + 1) * w] for y in range(h)]
+        return np.array([float(f) for f in fr]).reshape(h, w)
+
+    def _reg(self, aa, case, r, allow_obj=True, dim=2):
+        """a region argument as tuple / list / tuple of numpy ints / Region object (valid regions only)."""
+        if r is None:
+            return None
+        k = self._var(case).get("reg", "tuple")
+        if k == "list":
+            return [int(v) for v in r]
+        if k == "npint":
+            return tuple(np.int64(v) for v in r)
+        if k == "obj" and allow_obj and (_valid2(r) if dim == 2 else _valid1(r)):
+            return aa.Region2D(region=tuple(r)) if dim == 2 else aa.Region1D(region=tuple(r))
+        return tuple(int(v) for v in r)
+
+    def _shp(self, case, pair):
+        k = self._var(case).get("shp", "tuple")
+        if k == "list":
+            return [int(pair[0]), int(pair[1])]
+        if k == "npint":
+            return (np.int64(pair[0]), np.int64(pair[1]))
+        return (int(pair[0]), int(pair[1]))
+
+    def _generate_base(self, tier, rng):
         quick = tier == "quick"
         # 1. rotation commutes with slicing: exhaustive
         smax = 5 if quick else 7
@@ -224,58 +287,74 @@ class C19(PropertyCheck):
         try:
             if kind == "rotate":
                 h, w = case["h"], case["w"]
-                a = np.array([float(Fraction(v)) for v in case["values"]]).reshape(h, w)
+                a = self._arr(case, h, w)
                 c = tuple(case["corner"])
-                reg = tuple(case["region"])
+                reg = self._reg(aa, case, case["region"])
                 ra = lu.rotate_array_via_roe_corner_from(array=a, roe_corner=c)
-                rr = lu.rotate_region_via_roe_corner_from(region=reg, shape_native=(h, w), roe_corner=c)
-                back = lu.rotate_region_via_roe_corner_from(region=rr.region, shape_native=(h, w), roe_corner=c)
+                rr = lu.rotate_region_via_roe_corner_from(region=reg, shape_native=self._shp(case, (h, w)),
+                                                          roe_corner=c)
+                back = lu.rotate_region_via_roe_corner_from(
+                    region=rr if self._var(case).get("reg") == "obj" else rr.region,
+                    shape_native=self._shp(case, (h, w)), roe_corner=c)
+                r0 = reg if isinstance(reg, aa.Region2D) else aa.Region2D(region=reg)
                 return {"rotated_region": reg_out(rr), "rotated_array": _rows(ra),
                         "slice_of_rotated": _rows(ra[rr.slice]),
-                        "slice": _rows(a[aa.Region2D(region=reg).slice]),
+                        "slice": _rows(a[r0.slice]),
+                        "slice_xy": _rows(a[r0.y_slice, r0.x_slice]),
                         "twice_array": _rows(lu.rotate_array_via_roe_corner_from(array=ra, roe_corner=c)),
                         "twice_region": reg_out(back)}
             if kind == "rotate_region":
                 rr = lu.rotate_region_via_roe_corner_from(
-                    region=tuple(case["region"]), shape_native=(case["h"], case["w"]),
+                    region=self._reg(aa, case, case["region"]), shape_native=self._shp(case, (case["h"], case["w"])),
                     roe_corner=tuple(case["corner"]))
                 return reg_out(rr)
             if kind == "x0x1":
-                r = lu.x0x1_after_extraction(*case["args"])
+                args = case["args"]
+                if self._var(case).get("reg") == "npint":
+                    args = [np.int64(v) for v in args]
+                r = lu.x0x1_after_extraction(*args)
                 return None if r[0] is None and r[1] is None else [int(r[0]), int(r[1])]
             if kind == "extract":
                 h, w = case["h"], case["w"]
-                a = np.array([float(Fraction(v)) for v in case["values"]]).reshape(h, w)
-                o, e = tuple(case["orig"]), tuple(case["window"])
+                a = self._arr(case, h, w)
+                o, e = self._reg(aa, case, case["orig"]), self._reg(aa, case, case["window"])
                 out = lu.region_after_extraction(original_region=o, extraction_region=e)
-                win = a[aa.Region2D(region=e).slice]
+                win = a[aa.Region2D(region=tuple(case["window"])).slice]
                 return {"region": reg_out(out),
                         "content": None if out is None else _rows(win[out.slice])}
             if kind == "sub":
                 k = case["sub"]
                 px = None if case["pixels"] is None else tuple(case["pixels"])
+                if px is not None and self._var(case).get("shp") == "list":
+                    px = list(px)
+                elif px is not None and self._var(case).get("shp") == "npint":
+                    px = tuple(np.int64(v) for v in px)
                 fe = case["from_end"]
+                if fe is not None and self._var(case).get("shp") == "npint":
+                    fe = np.int64(fe)
+                omit01 = self._var(case).get("omit_defaults") and case["pixels"] == [0, 1]
                 if k in ("front1d", "trailing1d"):
-                    r = aa.Region1D(region=tuple(case["region"]))
+                    r = aa.Region1D(region=self._reg(aa, case, case["region"], allow_obj=False, dim=1))
                     if k == "front1d":
                         out = r.front_region_from(pixels=px, pixels_from_end=fe)
                     else:
                         out = r.trailing_region_from(pixels=px)
                     return reg_out(out)
-                r = aa.Region2D(region=tuple(case["region"]))
-                shape = tuple(case["shape"])
+                r = aa.Region2D(region=self._reg(aa, case, case["region"], allow_obj=False))
+                shape = self._shp(case, case["shape"])
                 if k == "parallel_front":
                     out = r.parallel_front_region_from(pixels=px, pixels_from_end=fe)
                 elif k == "parallel_trailing":
-                    out = r.parallel_trailing_region_from(pixels=px)
+                    out = r.parallel_trailing_region_from() if omit01 else r.parallel_trailing_region_from(pixels=px)
                 elif k == "serial_front":
                     out = r.serial_front_region_from(pixels=px, pixels_from_end=fe)
                 elif k == "serial_trailing":
-                    out = r.serial_trailing_region_from(pixels=px)
+                    out = r.serial_trailing_region_from() if omit01 else r.serial_trailing_region_from(pixels=px)
                 elif k == "parallel_full":
                     out = r.parallel_full_region_from(shape_2d=shape)
                 elif k == "serial_towards_roe_full":
-                    out = r.serial_towards_roe_full_region_from(shape_2d=shape, pixels=px)
+                    out = r.serial_towards_roe_full_region_from(shape_2d=shape) if omit01 else \
+                        r.serial_towards_roe_full_region_from(shape_2d=shape, pixels=px)
                 elif k == "serial_x_front_range":
                     x = r.serial_x_front_range_from(pixels=px)
                     return [int(x[0]), int(x[1])]
@@ -284,14 +363,29 @@ class C19(PropertyCheck):
                 return reg_out(out)
             if kind == "ctor":
                 if case["dim"] == 1:
-                    return reg_out(aa.Region1D(region=tuple(case["region"])))
-                return reg_out(aa.Region2D(region=tuple(case["region"])))
+                    return reg_out(aa.Region1D(region=self._reg(aa, case, case["region"], allow_obj=False, dim=1)))
+                return reg_out(aa.Region2D(region=self._reg(aa, case, case["region"], allow_obj=False)))
+            if kind == "layout1d":
+                n = case["n"]
+                pre = None if case["prescan"] is None else tuple(case["prescan"])
+                lay = aa.Layout1D(shape_1d=(n,), prescan=pre, overscan=tuple(case["overscan"]))
+                vals = self._arr(case, 1, n, need_ndarray=False)
+                vals = vals[0] if isinstance(vals, list) else vals.reshape(n)
+                arr = aa.Array1D.no_mask(values=vals, pixel_scales=1.0)
+                return {"prescan": reg_out(lay.prescan), "overscan": reg_out(lay.overscan),
+                        "overscan_array": qlist(np.asarray(
+                            lay.extract_overscan_array_1d_from(array=arr).native.array).ravel())}
             if kind == "layout":
                 return self._run_layout(aa, lu, case, reg_out)
             if kind == "layout_ctor":
-                po, sp, so = [None if r is None else tuple(r) for r in case["regions"]]
-                lay = aa.Layout2D(shape_2d=(case["h"], case["w"]), original_roe_corner=tuple(case["corner"]),
-                                  parallel_overscan=po, serial_prescan=sp, serial_overscan=so)
+                # declared argument types: tuple or Region2D (lists are not converted by Layout2D.__init__)
+                po, sp, so = [None if r is None else
+                              (aa.Region2D(region=tuple(r)) if self._var(case).get("reg") == "obj" and _valid2(r)
+                               else tuple(r)) for r in case["regions"]]
+                kw = {} if (self._var(case).get("omit_defaults") and case["corner"] == [1, 0]) else \
+                    {"original_roe_corner": tuple(case["corner"])}
+                lay = aa.Layout2D(shape_2d=self._shp(case, (case["h"], case["w"])),
+                                  parallel_overscan=po, serial_prescan=sp, serial_overscan=so, **kw)
                 return {"regions": [reg_out(getattr(lay, n)) for n in
                                     ("parallel_overscan", "serial_prescan", "serial_overscan")],
                         "roe": [int(v) for v in lay.original_roe_corner],
@@ -302,18 +396,19 @@ class C19(PropertyCheck):
 
     def _run_layout(self, aa, lu, case, reg_out):
         h, w = case["h"], case["w"]
-        a = np.array([float(Fraction(v)) for v in case["values"]]).reshape(h, w)
+        a = self._arr(case, h, w)
         c, c2 = tuple(case["corner"]), tuple(case["corner2"])
-        po, sp, so = [None if r is None else tuple(r) for r in case["regions"]]
+        po, sp, so = [self._reg(aa, case, r) for r in case["regions"]]
         lay = aa.Layout2D.rotated_from_roe_corner(
-            roe_corner=c, shape_native=(h, w), parallel_overscan=po, serial_prescan=sp, serial_overscan=so)
+            roe_corner=c, shape_native=self._shp(case, (h, w)), parallel_overscan=po, serial_prescan=sp,
+            serial_overscan=so)
         names = ("parallel_overscan", "serial_prescan", "serial_overscan")
         obs = {"rotated": [reg_out(getattr(lay, n)) for n in names],
                "roe": [int(v) for v in lay.original_roe_corner], "shape": [int(v) for v in lay.shape_2d]}
         lay2 = lay.new_rotated_from(roe_corner=c2)
         obs["rotated2"] = [reg_out(getattr(lay2, n)) for n in names]
         obs["roe2"] = [int(v) for v in lay2.original_roe_corner]
-        ext = lay.layout_extracted_from(extraction_region=tuple(case["window"]))
+        ext = lay.layout_extracted_from(extraction_region=self._reg(aa, case, case["window"]))
         obs["extracted"] = [reg_out(getattr(ext, n)) for n in names]
         # arrays: the layout lives on the rotated array
         ra = lay.original_orientation_from(array=a)
@@ -325,7 +420,11 @@ class C19(PropertyCheck):
             lay.extract_serial_overscan_array_from(array=arr).native.array)
         hdr = aa.Header(original_roe_corner=c)
         mask = aa.Mask2D.all_false(shape_native=(h, w), pixel_scales=1.0)
-        arr2 = aa.Array2D(values=a, mask=mask, header=hdr, store_native=case["store_native"])
+        if self._var(case).get("ctor") == "b" and not case["store_native"]:
+            arr2 = aa.Array2D.no_mask(values=self._arr(case, h, w, need_ndarray=False), pixel_scales=1.0,
+                                      header=hdr)
+        else:
+            arr2 = aa.Array2D(values=a, mask=mask, header=hdr, store_native=case["store_native"])
         try:
             oo = np.asarray(arr2.original_orientation)
             obs["original_orientation"] = _rows(oo) if oo.ndim == 2 else {"flat": qlist(oo)}
@@ -361,6 +460,12 @@ class C19(PropertyCheck):
             return [r]
         if kind == "ctor":
             return [{"op": "c19.region_new", "dim": case["dim"], "region": case["region"]}]
+        if kind == "layout1d":
+            reqs = [{"op": "c19.region_new", "dim": 1, "region": case["overscan"]},
+                    {"op": "c19.slice", "dim": 1, "region": case["overscan"], "values": case["values"]}]
+            if case["prescan"] is not None:
+                reqs.append({"op": "c19.region_new", "dim": 1, "region": case["prescan"]})
+            return reqs
         if kind == "layout":
             h, w = case["h"], case["w"]
             rows = [case["values"][y * w:(y + 1) * w] for y in range(h)]
@@ -377,7 +482,15 @@ class C19(PropertyCheck):
             # `rotate_region_via_roe_corner_from` takes a tuple: only the rotated tuple is validated
             r = responses[1]
             return r["ok"] if "ok" in r else {"err": r["err"]}
+        if kind == "layout1d":
+            for r in responses:
+                if "err" in r:
+                    return {"err": r["err"]}
+            return {"prescan": responses[2]["ok"] if len(responses) > 2 else None,
+                    "overscan": responses[0]["ok"], "overscan_array": responses[1]["ok"]}
         r = responses[0]
+        if kind == "rotate" and "ok" in r:
+            return {**r["ok"], "slice_xy": r["ok"]["slice"]}
         return r["ok"] if "ok" in r else {"err": r["err"]}
 
     def compare(self, case, impl_obs, model_obs, cmp):
@@ -415,6 +528,8 @@ class C19(PropertyCheck):
                            f"from the rotated array, rotated content of the original region is {want}")
         if obs["slice"] != _sl(rows, case["region"]):
             return False, "Region2D.slice does not address rows y0:y1, columns x0:x1"
+        if obs["slice_xy"] != obs["slice"]:
+            return False, "Region2D.y_slice / x_slice disagree with Region2D.slice"
         if obs["twice_array"] != rows:
             return False, "rotating the array twice does not restore it"
         if obs["twice_region"] != case["region"]:
@@ -508,6 +623,21 @@ class C19(PropertyCheck):
             return False, f"valid region {r} not accepted as is: {obs}"
         if not ok and obs != {"err": "bad_region"}:
             return False, f"invalid region {r} (negative or empty extent) was not rejected"
+        return True, ""
+
+    def _oracle_layout1d(self, case, obs):
+        ok = _valid1(case["overscan"]) and (case["prescan"] is None or _valid1(case["prescan"]))
+        if not ok:
+            if obs != {"err": "bad_region"}:
+                return False, f"Layout1D accepted an invalid region: {case['prescan']}, {case['overscan']}"
+            return True, ""
+        if "err" in obs:
+            return False, f"Layout1D with valid regions raised {obs}"
+        if obs["overscan"] != case["overscan"] or obs["prescan"] != case["prescan"]:
+            return False, "Layout1D changed its regions"
+        x0, x1 = case["overscan"]
+        if obs["overscan_array"] != [q(Fraction(v)) for v in case["values"]][x0:x1]:
+            return False, "extract_overscan_array_1d_from is not array[x0:x1]"
         return True, ""
 
     def _oracle_layout_ctor(self, case, obs):
@@ -604,6 +734,7 @@ class C19(PropertyCheck):
                        "C19.layout_rotated_twice", "C19.layout_extracted_regions",
                        "C19.original_orientation_undoes_rotation"],
             "layout_ctor": ["C19.layout_new_iff_valid"],
+            "layout1d": ["C19.region1d_rejects_iff_invalid"],
         }.get(case["kind"], ["C19.*"])
 
 
